@@ -118,7 +118,15 @@ def l1d_case(arg):
     if rng.random() < 0.5 and lo in src.data and hi in src.data:
         pend = [lo + (hi - lo) * rng.random() for _ in range(rng.choice([1, 2, 4]))]
         pend = [p for p in pend if p not in src.data]
-    res = {"seed": seed, "factor": factor, "loss": lossn, "n": len(data), "fail": None, "orders": 0, "pending": len(pend)}
+    slow = []
+    if rng.random() < 0.35 and len(data) >= 4:
+        # a slow end point: its result has not arrived, it is PENDING (the property's proviso: both end points known or pending)
+        slow = [b for b in rng.choice([[lo], [hi], [lo, hi]]) if b in src.data]
+        data = [(x, y) for x, y in data if x not in slow]
+        pend = [p for p in pend if p not in slow] + slow
+    have = dict(data)
+    res = {"seed": seed, "factor": factor, "loss": lossn, "n": len(data), "fail": None, "orders": 0, "pending": len(pend),
+           "slow_bounds": len(slow)}
 
     resumed = rng.random() < 0.3   # a learner resumed after a cancelled run: pending marks, then remove_unfinished
 
@@ -138,11 +146,15 @@ def l1d_case(arg):
         if mode in ("single", "pend_first"):
             for x, y in order:
                 l.tell(x, y)
+        elif mode == "pend_first_batch":
+            for p in pend:
+                l.tell_pending(p)
+            l.tell_many([x for x, _ in order], [y for _, y in order])
         elif mode == "batch":
             l.tell_many([x for x, _ in order], [y for _, y in order])
         elif mode == "force":
             l.tell_many([x for x, _ in order], [y for _, y in order], force=True)
-        if pend and mode != "pend_first":
+        if pend and mode not in ("pend_first", "pend_first_batch"):
             for p in pend:
                 l.tell_pending(p)
         return l
@@ -160,7 +172,13 @@ def l1d_case(arg):
                 res["fail"] = f_
                 return res
     # batch delivery needs both end points known or pending (fixes the x normalisation)
-    if lo in src.data and hi in src.data:
+    if slow and all(b in have or b in pend for b in (lo, hi)):
+        res["orders"] += 1
+        f_ = compare_l1d(ref, build(rng.sample(data, len(data)), "pend_first_batch"), f"{len(data)} points, one batch after the pending marks (end point(s) {slow} pending)")
+        if f_:
+            res["fail"] = ("batch_" + f_[0], f_[1])
+            return res
+    if lo in have and hi in have:
         for mode in ("batch", "force"):
             res["orders"] += 1
             f_ = compare_l1d(ref, build(rng.sample(data, len(data)), mode), f"{len(data)} points, one batch ({mode})")
@@ -226,6 +244,7 @@ def run(ctx):
         orders += r["orders"]
         dist[f"factor{r['factor']}:{r['loss']}"] = dist.get(f"factor{r['factor']}:{r['loss']}", 0) + 1
         dist["with_pending"] = dist.get("with_pending", 0) + (1 if r["pending"] else 0)
+        dist["with_pending_end_point"] = dist.get("with_pending_end_point", 0) + (1 if r.get("slow_bounds") else 0)
         if r["fail"]:
             cl, det = r["fail"]
             sig = f"C11.l1d_{cl}"
